@@ -15,6 +15,8 @@ import (
 	"unsafe"
 
 	"golang.org/x/tools/go/ssa"
+
+	"gosym/smt"
 )
 
 // If the target program panics, the interpreter panics with this type.
@@ -330,9 +332,17 @@ func slice(x, lo, hi, max value) value {
 func indexIn(idx value, n int) int {
 	if s, ok := idx.(sym); ok {
 		c := P.ctx
-		inRange := c.Ult(s.t, c.BV(s.t.W, uint64(n)))
-		if isSignedKind(s.k) {
-			inRange = c.BAnd(c.Sle(c.BV(s.t.W, 0), s.t), c.Slt(s.t, c.BV(s.t.W, uint64(n))))
+		w := s.t.W
+		var inRange *smtTerm
+		switch {
+		case isSignedKind(s.k) && (w >= 64 || uint64(n) <= smt.Mask(w-1)):
+			inRange = c.BAnd(c.Sle(c.BV(w, 0), s.t), c.Slt(s.t, c.BV(w, uint64(n))))
+		case isSignedKind(s.k):
+			inRange = c.Sle(c.BV(w, 0), s.t) // n exceeds the type's maximum
+		case w >= 64 || uint64(n) <= smt.Mask(w):
+			inRange = c.Ult(s.t, c.BV(w, uint64(n)))
+		default:
+			inRange = c.Bool(true)
 		}
 		if !P.branch(inRange) {
 			raise(fmt.Sprintf("index out of range [symbolic] with length %d", n))
@@ -344,6 +354,89 @@ func indexIn(idx value, n int) int {
 		raise(fmt.Sprintf("index out of range [%d] with length %d", i, n))
 	}
 	return int(i)
+}
+
+// isStdTable reports whether v is a package-level array of a package outside
+// the module under test (treated as a read-only lookup table).
+func isStdTable(v ssa.Value) bool {
+	g, ok := v.(*ssa.Global)
+	if !ok || g.Pkg == nil {
+		return false
+	}
+	return !strings.HasPrefix(g.Pkg.Pkg.Path(), W.ModPath)
+}
+
+// tableIndex resolves a symbolic index into an array of concrete scalars by
+// forking over the classes of indexes that hold the same element value; it
+// returns a representative index of the chosen class (the index itself stays
+// symbolic, constrained to the class). Falls back to indexIn otherwise.
+func tableIndex(idx sym, a array) int {
+	n := len(a)
+	classes := map[value][]int{}
+	var order []value
+	for i, e := range a {
+		switch e.(type) {
+		case bool, int, int8, int16, int32, int64, uint, uint8, uint16, uint32, uint64, uintptr, string:
+		default:
+			return indexIn(idx, n)
+		}
+		if _, ok := classes[e]; !ok {
+			order = append(order, e)
+		}
+		classes[e] = append(classes[e], i)
+	}
+	if len(order) > 64 {
+		return indexIn(idx, n)
+	}
+	c := P.ctx
+	w := idx.t.W
+	signed := isSignedKind(idx.k)
+	le := func(a, b *smtTerm) *smtTerm {
+		if signed {
+			return c.Sle(a, b)
+		}
+		return c.Ule(a, b)
+	}
+	conds := make([]*smtTerm, 0, len(order)+1)
+	for _, e := range order {
+		is := classes[e]
+		cond := c.Bool(false)
+		for k := 0; k < len(is); {
+			j := k
+			for j+1 < len(is) && is[j+1] == is[j]+1 {
+				j++
+			}
+			lo, hi := c.BV(w, uint64(is[k])), c.BV(w, uint64(is[j]))
+			if w < 64 && uint64(is[j]) > smt.Mask(w) {
+				hi = c.BV(w, smt.Mask(w))
+			}
+			if w < 64 && uint64(is[k]) > smt.Mask(w) {
+				break
+			}
+			cond = c.BOr(cond, c.BAnd(le(lo, idx.t), le(idx.t, hi)))
+			k = j + 1
+		}
+		conds = append(conds, cond)
+	}
+	// out of range
+	var oob *smtTerm
+	switch {
+	case signed:
+		oob = c.BNot(c.BAnd(c.Sle(c.BV(w, 0), idx.t), c.Slt(idx.t, c.BV(w, uint64(n)))))
+		if w < 64 && uint64(n) > smt.Mask(w-1) {
+			oob = c.Slt(idx.t, c.BV(w, 0))
+		}
+	case w < 64 && uint64(n) > smt.Mask(w):
+		oob = c.Bool(false)
+	default:
+		oob = c.Ule(c.BV(w, uint64(n)), idx.t)
+	}
+	conds = append(conds, oob)
+	k := P.decide(conds, nil)
+	if k == len(order) {
+		raise(fmt.Sprintf("index out of range [symbolic] with length %d", n))
+	}
+	return classes[order[k]][0]
 }
 
 // lookup returns x[idx] where x is a map.
